@@ -466,14 +466,18 @@ func splitPeriod(mpd *m.MPD, a *asset, cfg *ResponseConfig, wTimes wrapTimes) (l
 // lastChangeMS is the latest time at which that range changed: either the last period was added,
 // or the period before the first one was removed since the start of the time-shift window left it.
 func listedPeriods(cfg *ResponseConfig, wTimes wrapTimes, periodDurMS int) (firstNr, lastNr, lastChangeMS int) {
-	firstNr = wTimes.startTimeMS / periodDurMS
-	lastNr = wTimes.nowMS / periodDurMS
+	// Period@start and the media timeline are relative to availabilityStartTime, so that is where period 0 starts.
 	streamStartMS := cfg.StartTimeS * 1000
+	firstNr = (wTimes.startTimeMS - streamStartMS) / periodDurMS
+	lastNr = (wTimes.nowMS - streamStartMS) / periodDurMS
+	if lastNr < firstNr {
+		lastNr = firstNr
+	}
 	lastChangeMS = streamStartMS
-	if addedMS := lastNr * periodDurMS; addedMS > lastChangeMS {
+	if addedMS := streamStartMS + lastNr*periodDurMS; addedMS > lastChangeMS {
 		lastChangeMS = addedMS
 	}
-	if firstStartMS := firstNr * periodDurMS; firstStartMS > streamStartMS {
+	if firstStartMS := streamStartMS + firstNr*periodDurMS; firstStartMS > streamStartMS {
 		// An earlier period has been listed. The window start is not clamped to the stream start here.
 		timeShiftBufferDepthMS := wTimes.nowMS - wTimes.startTimeMS
 		if removedMS := firstStartMS + timeShiftBufferDepthMS; removedMS > lastChangeMS {
